@@ -198,7 +198,7 @@ PROPS = {
         "assumptions": ["F7 (a service whose started fails panics the caller of from_registry in debug builds) is avoided by the generators and recorded as a known finding"],
     },
     "C01": {
-        "families": [("mailbox", 900, 25000), ("backpressure", 400, 10000), ("restart-bp", 400, 8000)],
+        "families": [("mailbox", 900, 25000), ("backpressure", 400, 10000), ("restart-bp", 400, 8000), ("streams", 200, 6000)],
         "monitors": ["C03"],
         "theorems": ["C01_mailbox_discipline", "C01_handler_takes_head", "C01_queued_at_most_once", "C01_no_overlap", "C01_first_in_first_handled", "C01_submission_goes_to_the_tail"],
         "nontrivial": nt_c01,
@@ -324,6 +324,19 @@ PROPS = {
         "assumptions": ["'taken out of the mailbox' is witnessed by the handler entry that follows the dequeue in the same step, or by the end of the actor's task (receiver destroyed)"],
     },
 }
+
+# Every trace-based check also runs a small sweep of every family it does not list: a change
+# that breaks a property may show only under conditions another property's generator creates
+# (rounds 3 and 4 of the seeded changes: C01 / restart, C03 / timeouts, C05 / streams, C06 / broker).
+ALL_FAMILIES = ["mailbox", "backpressure", "restart-bp", "lifecycle", "restart", "timers", "faults", "stop-race",
+                "handles", "owning", "timeouts", "streams", "liveness-query", "registry", "registry-liveness",
+                "children", "broker"]
+SWEEP = (40, 1200)
+for _pid, _cfg in PROPS.items():
+    if _cfg["families"]:
+        _have = {f for f, _, _ in _cfg["families"]}
+        _cfg["families"] = list(_cfg["families"]) + [(f, SWEEP[0], SWEEP[1]) for f in ALL_FAMILIES if f not in _have]
+        _cfg["rule"] += f"; plus a sweep of {SWEEP[0]} (quick) / {SWEEP[1]} (thorough) cases of every other family"
 
 NOT_APPLICABLE = {}
 
